@@ -166,6 +166,10 @@ pub fn encode_full<W: Write + Seek>(
                         }
                         wr.write_all(&data[off..off + n]).map_err(|e| EncErr::Write(e.to_string()))?;
                         off += n;
+                        // io::Write users also flush between writes; it must not change the stream
+                        if n % 3 == 1 && off < data.len() {
+                            wr.flush().map_err(|e| EncErr::Write(e.to_string()))?;
+                        }
                     }
                     if !finalize {
                         return Ok(());
